@@ -704,7 +704,7 @@ func (g *treeGen) genBinary(t *yang.YangType) []byte {
 	if len(t.Length) > 0 {
 		p := t.Length[g.rng.Intn(len(t.Length))]
 		n = int(p.Min.Value) + g.rng.Intn(int(p.Max.Value-p.Min.Value)+1)
-	} else if g.bigBin && g.rng.Intn(5) == 0 {
+	} else if g.bigBin && g.rng.Intn(2) == 0 {
 		// around the sizes at which an encoder working in blocks starts a new block
 		n = pick(g.rng, []int{1023, 1024, 1025, 1536, 2049, 3100})
 	}
